@@ -618,6 +618,14 @@ pub fn foreign_attr(rng: &mut Rng, r: &Recv) -> String {
         return (*rng.pick(&FOREIGN)).to_string();
     }
     let n = rng.pick(&names).clone();
+    if let Some(bare) = n.strip_prefix("::") {
+        // the name is declared with a leading `::`: the same path without it is a different attribute
+        return match rng.below(3) {
+            0 => format!("#[{bare}(zzz_unknown = 1)]"),
+            1 => format!("#[{bare}(\"stray literal\")]"),
+            _ => format!("#[x::{bare}]"),
+        };
+    }
     match rng.below(6) {
         0 => format!("#[::{n}(zzz_unknown = 1)]"),
         1 => format!("#[::{n}]"),
